@@ -58,6 +58,10 @@ def random_history(r, coin, nblocks, shared_addresses=True, many_outputs=False, 
                 else:
                     op = (txs[-1].txid(), r.randrange(300))                   # index that may not exist
                 ins.append((op[0], op[1], b"\x01\x01", 0xffffffff))
+            # a multi-input transaction one of whose inputs (often the first) is the null outpoint: it is NOT a coinbase
+            # (a coinbase has exactly one input), so its other inputs spend what they name
+            if nin >= 2 and r.random() < 0.15:
+                ins[r.choice([0, 0, len(ins) - 1])] = (b"\0" * 32, 0xffffffff, b"\x01\x03", 0xffffffff)
             nout = r.choice([0, 1, 1, 2, 3, 4]) if not many_outputs else r.choice([1, 2, 257, 300])
             outs = [(r.choice([0, 0, 1, r.randrange(10**9)]) if r.random() < 0.3 else r.randrange(10**9), script()) for _ in range(nout)]
             t = K.Tx(ins, outs)
